@@ -47,17 +47,22 @@ struct C08 : vr::Driver {
     world::Psi full{a10, a60, a300, 1000}, some{a10, a60, a300, 2000};
     world::setPsi(rel, res, some, full);
   }
-  void addPressureAbove(const std::string& res, int duration, int T) {
+  static std::string secs(double d) {
+    std::ostringstream o;
+    o << d;
+    return o.str();
+  }
+  void addPressureAbove(const std::string& res, int duration, int T, bool frac = false) {
     Case c;
-    c.name = "pressure_above resource=" + res + " threshold=50 duration=" + std::to_string(duration);
+    c.name = "pressure_above resource=" + res + " threshold=50 duration=" + std::to_string(duration) + (frac ? " (fractional clock advances)" : "");
     c.plugin = "pressure_above";
     c.argsJson = "\"cgroup\":\"w/a\",\"resource\":\"" + res + "\",\"threshold\":\"50\",\"duration\":\"" + std::to_string(duration) + "\"";
     c.nLetters = 9;
     c.T = T;
     c.setup = [] { world::mkcg("w/a"); };
     static const double vals[] = {49.99, 50.00, 50.01};
-    static const double dts[] = {1, 2, 5};
-    c.apply = [res](int l, int) {
+    const std::vector<double> dts = frac ? std::vector<double>{0.6, 1, 1.6} : std::vector<double>{1, 2, 5};
+    c.apply = [res, dts](int l, int) {
       setPress("w/a", res, vals[l % 3], 10, 5);
       setPress("w/a", res == "memory" ? "io" : "memory", 99, 99, 99);  // the other resource must not matter
       return dts[l / 3];
@@ -65,15 +70,15 @@ struct C08 : vr::Driver {
     c.expect = [duration](const std::vector<Sample>& h) {
       size_t n = h.size() - 1;
       for (size_t j = 0; j <= n; j++) {
-        if (std::floor(h[n].t - h[j].t) < duration) continue;
+        if (h[n].t - h[j].t < duration - 1e-9) continue;  // 'a tick at least duration seconds ago'
         bool all = true;
         for (size_t i = j; i <= n; i++) all &= (h[i].letter % 3) == 2;
         if (all) return true;
       }
       return false;
     };
-    c.letterName = [](int l) { return std::string(l % 3 == 0 ? "below" : l % 3 == 1 ? "equal" : "above") + "+" + std::to_string((int)dts[l / 3]) + "s"; };
-    c.dtOf = [](int l) { return dts[l / 3]; };
+    c.letterName = [dts](int l) { return std::string(l % 3 == 0 ? "below" : l % 3 == 1 ? "equal" : "above") + "+" + secs(dts[l / 3]) + "s"; };
+    c.dtOf = [dts](int l) { return dts[l / 3]; };
     cases.push_back(c);
   }
   // two cgroups, one resolved through a wildcard and appearing / disappearing
@@ -100,7 +105,7 @@ struct C08 : vr::Driver {
       auto above = [](int l) { return (l % 2) == 1 || ((l / 2) % 3) == 2; };  // the cgroup under most pressure is above
       size_t n = h.size() - 1;
       for (size_t j = 0; j <= n; j++) {
-        if (std::floor(h[n].t - h[j].t) < duration) continue;
+        if (h[n].t - h[j].t < duration - 1e-9) continue;  // 'a tick at least duration seconds ago'
         bool all = true;
         for (size_t i = j; i <= n; i++) all &= above(h[i].letter);
         if (all) return true;
@@ -142,7 +147,7 @@ struct C08 : vr::Driver {
     c.expect = [duration](const std::vector<Sample>& h) {
       size_t n = h.size() - 1;
       for (size_t j = 0; j <= n; j++) {
-        if (std::floor(h[n].t - h[j].t) < duration) continue;
+        if (h[n].t - h[j].t < duration - 1e-9) continue;  // 'a tick at least duration seconds ago'
         bool all = true;
         for (size_t i = j; i <= n; i++) all &= (h[i].letter % 3) == 2;
         if (all) return true;
@@ -152,9 +157,9 @@ struct C08 : vr::Driver {
     c.letterName = [](int l) { return std::string(l % 3 == 0 ? "absent" : l % 3 == 1 ? "below" : "above") + (l / 3 ? "+2s" : "+1s"); };
     cases.push_back(c);
   }
-  void addMemoryAbove(const std::string& thrText, long long thrBytes, bool anon, int duration, int T) {
+  void addMemoryAbove(const std::string& thrText, long long thrBytes, bool anon, int duration, int T, bool frac = false) {
     Case c;
-    c.name = std::string("memory_above ") + (anon ? "threshold_anon" : "threshold") + "='" + thrText + "' (" + std::to_string(thrBytes) + " bytes) duration=" + std::to_string(duration);
+    c.name = std::string("memory_above ") + (anon ? "threshold_anon" : "threshold") + "='" + thrText + "' (" + std::to_string(thrBytes) + " bytes) duration=" + std::to_string(duration) + (frac ? " (fractional clock advances)" : "");
     c.plugin = "memory_above";
     c.argsJson = std::string("\"cgroup\":\"w/*\",\"") + (anon ? "threshold_anon" : "threshold") + "\":\"" + thrText + "\",\"duration\":\"" + std::to_string(duration) + "\"";
     if (anon) c.argsJson += ",\"threshold\":\"1\"";  // when both are given only threshold_anon is effective
@@ -165,8 +170,8 @@ struct C08 : vr::Driver {
       world::mkcg("w/b");
       world::setMeminfo(16777216, 8388608, 2097152, 2097152);  // MemTotal 16 GiB
     };
-    static const double dts[] = {1, 2, 5};
-    c.apply = [thrBytes, anon](int l, int) {
+    const std::vector<double> dts = frac ? std::vector<double>{0.6, 1, 1.6} : std::vector<double>{1, 2, 5};
+    c.apply = [thrBytes, anon, dts](int l, int) {
       long long v = thrBytes + (l % 3) - 1;
       // w/a carries the watched value, w/b is smaller: "the cgroup with the largest usage"
       if (anon) {
@@ -184,15 +189,15 @@ struct C08 : vr::Driver {
     c.expect = [duration](const std::vector<Sample>& h) {
       size_t n = h.size() - 1;
       for (size_t j = 0; j <= n; j++) {
-        if (std::floor(h[n].t - h[j].t) < duration) continue;
+        if (h[n].t - h[j].t < duration - 1e-9) continue;  // 'a tick at least duration seconds ago'
         bool all = true;
         for (size_t i = j; i <= n; i++) all &= (h[i].letter % 3) == 2;
         if (all) return true;
       }
       return false;
     };
-    c.letterName = [](int l) { return std::string(l % 3 == 0 ? "thr-1" : l % 3 == 1 ? "thr" : "thr+1") + "+" + std::to_string((int)dts[l / 3]) + "s"; };
-    c.dtOf = [](int l) { return dts[l / 3]; };
+    c.letterName = [dts](int l) { return std::string(l % 3 == 0 ? "thr-1" : l % 3 == 1 ? "thr" : "thr+1") + "+" + secs(dts[l / 3]) + "s"; };
+    c.dtOf = [dts](int l) { return dts[l / 3]; };
     cases.push_back(c);
   }
   void addRisingBeyond(int duration, int T) {
@@ -213,7 +218,7 @@ struct C08 : vr::Driver {
       double a10 = a10s[h[n].letter % 4], prev = n == 0 ? 100.0 : a10s[h[n - 1].letter % 4];
       bool window = false;
       for (size_t j = 0; j <= n && !window; j++) {
-        if (std::floor(h[n].t - h[j].t) < duration) continue;
+        if (h[n].t - h[j].t < duration - 1e-9) continue;  // 'a tick at least duration seconds ago'
         bool all = true;
         for (size_t i = j; i <= n; i++) all &= ((h[i].letter / 4) % 2) == 1;
         window = all;
@@ -390,6 +395,9 @@ struct C08 : vr::Driver {
     addMemoryAbove("10%", 16LL * GiB * 10 / 100, false, 2, 3);
     addMemoryAbove("3G", 3 * GiB, false, 0, 3);
     addMemoryAbove("5G", 5 * GiB, true, 2, 3);
+    // ticks that are not a whole number of seconds apart (0.6 / 1 / 1.6 s): 'at least duration seconds' must not be rounded
+    for (int d : {1, 2}) addMemoryAbove("3G", 3 * GiB, false, d, th ? 5 : 4, true);
+    for (int d : {1, 2}) addPressureAbove("memory", d, th ? 5 : 4, true);
     for (int d : {0, 2, 3}) addVanishing("pressure_above", d, th ? 6 : 5);
     for (int d : {0, 2, 3}) addVanishing("memory_above", d, th ? 6 : 5);
     for (int d : {0, 2}) addRisingBeyond(d, th ? 4 : 3);
@@ -476,7 +484,7 @@ struct C08 : vr::Driver {
           double t = 0;
           for (int q = 0; q < k; q++) {
             t += dts2[q];
-            hs += "  t=" + std::to_string((int)t) + "s " + c.letterName(letters[q]) + "\n";
+             hs += "  t=" + secs(t) + "s " + c.letterName(letters[q]) + "\n";
           }
           r.violate("C08|" + c.plugin + "|model-mismatch:" + (want ? "should-fire" : "should-not-fire"),
                     c.name + "\nat tick " + std::to_string(k) + " the detector returned " + (ret < 0 ? "(not run)" : ret == 0 ? "CONTINUE" : "STOP") +
